@@ -122,6 +122,8 @@ def specs(tier):
             for name, _ in tconfs():
                 if tier == "quick" and name.startswith("zero-") and name != "zero-read":
                     continue
+                if tier == "quick" and variant == "async" and name not in ("full", "no-read", "none"):
+                    continue      # the async twin is checked on three configurations in quick (C18 ties the variants together)
                 out.append(make_spec(MOD, "TimeoutHarness", ct=ct, variant=variant, tconf=name))
     return out
 
